@@ -44,6 +44,9 @@ pub struct Cfg {
     pub dense: bool,
     /// Largest day offset in "normal" mode.
     pub max_day_offset: i64,
+    /// Percentage of expressions with many rules (12-67, bracketing 16 / 32 / 64): a sequence
+    /// drawn from a pool of 1-4 generated rules, so that the choice budget stays small.
+    pub long_pct: u32,
     /// Single dates (`Jan 5 +200 days`) may carry day offsets up to this value (0 = no more than
     /// `max_day_offset`): the date may then fall in the year after / before the one it is
     /// defined on.
@@ -71,6 +74,7 @@ impl Default for Cfg {
             events: true,
             dense: false,
             max_day_offset: 10,
+            long_pct: 0,
             single_date_max_offset: 0,
             canonical_pct: 0,
             canonical: false,
@@ -350,6 +354,13 @@ fn gen_time_selector(ch: &mut Choices, cfg: &Cfg, out: &mut String) -> TimeSelec
 fn gen_nth(ch: &mut Choices, out: &mut String) -> ([bool; 5], [bool; 5]) {
     let mut from_start = [false; 5];
     let mut from_end = [false; 5];
+    // every position, counted from the start and from the end: the same days as no `[..]` at all
+    if ch.chance(3) {
+        out.push('[');
+        out.push_str(ch.pick(&["1-5,-1,-2,-3,-4,-5", "-5,-4,-3,-2,-1,1-5", "1,2,3,4,5,-1,-2,-3,-4,-5", "1-3,-1,-2,4-5,-3,-4,-5"]));
+        out.push(']');
+        return ([true; 5], [true; 5]);
+    }
     let n = 1 + ch.weighted(&[75, 20, 5]);
     out.push('[');
     for i in 0..n {
@@ -671,8 +682,37 @@ fn gen_wday_offset(ch: &mut Choices, out: &mut String) -> WeekDayOffset {
 }
 
 fn gen_monthday_range(ch: &mut Choices, cfg: &Cfg, out: &mut String) -> MonthdayRange {
-    let w = if cfg.canonical { [22, 16, 0, 0, 0, 0, 0] } else { [22, 16, 16, 8, 28, 10, 9] };
+    let w = if cfg.canonical { [22, 16, 0, 0, 0, 0, 0, 2] } else { [22, 16, 16, 8, 28, 10, 9, 5] };
     match ch.weighted(&w) {
+        // date range aligned on months (`Jan 01-Feb 28`, `Mar 1-Apr 30`): almost a month range —
+        // the difference is the leap day, or the days after an end that is not the last one
+        7 => {
+            let a = ch.pick(&MONTHS);
+            let b = if ch.chance(40) { a } else { ch.pick(&MONTHS) };
+            out.push_str(month_str(a));
+            out.push(' ');
+            out.push_str(if ch.chance(50) { "01" } else { "1" });
+            out.push('-');
+            let last = match b {
+                Month::February => 28,
+                Month::April | Month::June | Month::September | Month::November => 30,
+                _ => 31,
+            };
+            let day: u8 = match ch.weighted(&[60, 15, 15, 10]) {
+                0 => last,
+                1 if b == Month::February => 29,
+                1 => last - 1,
+                2 => 28,
+                _ => 30,
+            };
+            out.push_str(month_str(b));
+            out.push(' ');
+            out.push_str(&day.to_string());
+            MonthdayRange::Date {
+                start: (Date::Fixed { year: None, month: a, day: 1 }, DateOffset::default()),
+                end: (Date::Fixed { year: None, month: b, day }, DateOffset::default()),
+            }
+        }
         // range hugging the turn of the year, where offsets carry an end into the adjacent year
         6 => {
             let with_year = ch.chance(40);
@@ -1043,6 +1083,9 @@ fn gen_rule(ch: &mut Choices, cfg: &Cfg, out: &mut String, operator: RuleOperato
 
 /// Generate an expression and its text.
 pub fn gen_expr(ch: &mut Choices, cfg: &Cfg) -> (OpeningHoursExpression, String) {
+    if cfg.long_pct > 0 && ch.chance(cfg.long_pct) {
+        return gen_long_expr(ch, cfg);
+    }
     let mut out = String::new();
     let n = 1 + ch.draw(cfg.max_rules);
     let mut rules: Vec<RuleSequence> = Vec::new();
@@ -1085,6 +1128,51 @@ pub fn gen_expr(ch: &mut Choices, cfg: &Cfg) -> (OpeningHoursExpression, String)
         }
         prev_ends_with_monthday = g.ends_with_monthday;
         rules.push(g.rule);
+    }
+    (OpeningHoursExpression { rules }, out)
+}
+
+/// An expression of many rules: a sequence over a small pool of generated rules.
+fn gen_long_expr(ch: &mut Choices, cfg: &Cfg) -> (OpeningHoursExpression, String) {
+    let m = 1 + ch.draw(4) as usize;
+    let pool: Vec<(GenRule, String)> = (0..m)
+        .map(|_| {
+            let mut text = String::new();
+            let g = gen_rule(ch, cfg, &mut text, RuleOperator::Normal);
+            (g, text)
+        })
+        .collect();
+    let n = [12u32, 15, 16, 17, 18, 24, 31, 32, 33, 48, 63, 64][ch.draw(12) as usize] + ch.draw(4);
+    let mut out = String::new();
+    let mut rules: Vec<RuleSequence> = Vec::new();
+    let mut prev_ends_with_monthday = false;
+    for i in 0..n {
+        let (g, text) = &pool[ch.draw(m as u32) as usize];
+        let mut operator = if i == 0 {
+            RuleOperator::Normal
+        } else {
+            match ch.weighted(&[70, 25, 5]) {
+                0 => RuleOperator::Normal,
+                1 => RuleOperator::Additional,
+                _ => RuleOperator::Fallback,
+            }
+        };
+        // AMBIGUITY (see gen_expr): "<monthday selector>, easter ..." continues the list
+        if operator == RuleOperator::Additional && prev_ends_with_monthday && g.starts_with_bare_easter {
+            operator = RuleOperator::Normal;
+        }
+        if i > 0 {
+            out.push_str(match operator {
+                RuleOperator::Normal => "; ",
+                RuleOperator::Additional => ", ",
+                RuleOperator::Fallback => " || ",
+            });
+        }
+        out.push_str(text);
+        let mut rule = g.rule.clone();
+        rule.operator = operator;
+        rules.push(rule);
+        prev_ends_with_monthday = g.ends_with_monthday;
     }
     (OpeningHoursExpression { rules }, out)
 }
